@@ -425,7 +425,8 @@ FNS = ["kmers", "minimizers", "count", "match_string", "motif"]
 
 
 def tasks(tier, seed):
-    out = [("task_core", dict(stride=16, offset=o)) for o in range(16)]
+    out = []
+    core_tasks = [("task_core", dict(stride=16, offset=o)) for o in range(16)]       # appended last: the part a time budget may cut short
     n, reps = (400, 1) if tier == "quick" else (1000, 4)
     for i, fn in enumerate(FNS):
         for j in range(reps):
@@ -443,4 +444,4 @@ def tasks(tier, seed):
             cases.append(c)
         out.append(("task_big", dict(cases=cases[:3])))
         out.append(("task_big", dict(cases=cases[3:])))
-    return out
+    return out + core_tasks
